@@ -69,6 +69,8 @@ def cases(tier, seed):
                 if tier == "quick" and rnd.random() < 0.0 and not (pb and dist.startswith("MeanField")):
                     continue
                 yield {"kind": "svgp", "pbatch": pb, "dbatch": db, "zbatch": zb, "strategy": strat, "dist": dist, "seed": rnd.randrange(10**6)}
+        for bb in ([2], [2, 3], [3, 2], [1, 2]):
+            yield {"kind": "vnngp", "batch": bb, "seed": rnd.randrange(10**6)}
         for T_, strat in itertools.product([2, 3], ["VariationalStrategy", "UnwhitenedVariationalStrategy"]):
             yield {"kind": "indep_mt", "T": T_, "strategy": strat, "seed": rnd.randrange(10**6)}
         for pb, db in (([2], [2]), ([], [3]), ([3], [3]), ([2], [3, 2])):
@@ -102,7 +104,7 @@ def run_case(case, ctx):
     from vf import util
 
     g = util.gen(case["seed"])
-    return {"kernel": _kernel, "mean": _mean, "lik": _lik, "exact": _exact, "svgp": _svgp, "indep_mt": _indep_mt, "modellist": _modellist}[case["kind"]](case, ctx, g)
+    return {"kernel": _kernel, "mean": _mean, "lik": _lik, "exact": _exact, "svgp": _svgp, "indep_mt": _indep_mt, "vnngp": _vnngp, "modellist": _modellist}[case["kind"]](case, ctx, g)
 
 
 def _ex(t, full, *rest):
@@ -414,6 +416,68 @@ def _svgp(case, ctx, g):
         else:
             ctx.close("kl_replica", kl, rk, (1e-7, 1e-7), cls="svgp:kl", element=list(b))
     ctx.cell(*_cell(case, full))
+
+
+def _vnngp(case, ctx, g):
+    """nearest-neighbour variational GP (NNVariationalStrategy) with a batch shape: the evaluation-mode q(f) of element b is
+    that of the non-batched model carrying the b-th slice of inducing points, variational and hyper-parameters"""
+    import torch
+
+    import gpytorch
+
+    from vf import util
+
+    V = gpytorch.variational
+    bs = torch.Size(case["batch"])
+    M_, n = 9, 5
+    Z = util.rand(g, *bs, M_, D)
+
+    def mk(Z_, b_):
+        class M(gpytorch.models.ApproximateGP):
+            def __init__(s):
+                vd = V.MeanFieldVariationalDistribution(M_, batch_shape=b_)
+                vs = V.NNVariationalStrategy(s, Z_, vd, k=3, training_batch_size=M_, jitter_val=1e-3)
+                super().__init__(vs)
+                s.mean_module = gpytorch.means.ConstantMean(batch_shape=b_)
+                s.covar_module = gpytorch.kernels.ScaleKernel(gpytorch.kernels.RBFKernel(batch_shape=b_), batch_shape=b_)
+
+            def forward(s, x):
+                return gpytorch.distributions.MultivariateNormal(s.mean_module(x), s.covar_module(x))
+
+        return M()
+
+    try:
+        m = mk(Z, bs)
+    except Exception as e:
+        ctx.reject(f"NNVariationalStrategy unavailable: {type(e).__name__}")
+        return
+    util.randomize(m.mean_module, g, 0.6)
+    util.randomize(m.covar_module, g, 0.4)
+    vd = m.variational_strategy._variational_distribution
+    with torch.no_grad():
+        vd.variational_mean.copy_(util.randn(g, *vd.variational_mean.shape))
+        vd._variational_stddev.copy_(util.rand(g, *vd._variational_stddev.shape) * 0.5 + 0.2)
+    X = util.rand(g, n, D)
+    full = list(bs)
+    try:
+        with torch.no_grad():
+            m.eval()
+            out = m(X)
+            mean, var = out.mean, out.variance
+    except Exception as e:
+        ctx.fail("svgp_replica", f"batched VNNGP raised {type(e).__name__}: {str(e)[:140]}", "raise", exc=type(e).__name__, vnngp=True, batch=full)
+        return
+    ctx.expect("exact_batch_shape", list(mean.shape) == full + [n], f"VNNGP output shape {list(mean.shape)} for batch {full} and {n} points")
+    if list(mean.shape) != full + [n]:
+        return
+    for b in _elements(full):
+        r = mk(Z[b].clone(), torch.Size([]))
+        _load_slice(m, r, b, full)
+        with torch.no_grad():
+            r.eval()
+            ro = r(X)
+        ctx.close("svgp_replica", torch.cat([mean[b], var[b]]), torch.cat([ro.mean, ro.variance]), (1e-8, 1e-8), cls=f"vnngp:batch_rank{len(full)}", element=list(b))
+    ctx.cell({"kind": "vnngp", "batch": full})
 
 
 def _indep_mt(case, ctx, g):
